@@ -289,7 +289,7 @@ theorem genAxisAndAngle2d_eq (c : Cls) (r : Aff2) :
 perpendicular from the random vector, arccos, sign by the triple product), for every oracle -/
 theorem genAxisAndAngle3d_eq (eig : Rows → List EVal × List (List Rat)) (sqrt : Rat → Rat) (rand : List Rat) (t : Tr) :
     genAxisAndAngle3d eig sqrt rand t = axisAngle3Src eig sqrt rand t := by
-  unfold genAxisAndAngle3d axisAngle3Src axisAngle3After axisCandidates unitTol
+  unfold genAxisAndAngle3d axisAngle3Src axisAngle3After axisCandidates unitTol PyMask.sel instPyMaskListEVal
   simp only []
   split <;> (try rfl) <;> split <;> simp_all
 
@@ -354,8 +354,18 @@ macro "ident_unfold" : tactic => `(tactic|
     genRotationInitIdentity, genUniformScaleInitIdentity, genNonUniformScaleInitIdentity, genHomogeneousInit, genAffineInit,
     genSimilarityInit, genTranslationInit, genRotationInit, genRotationSetRotationMatrix, genUniformScaleInit,
     genNonUniformScaleInit, genHomogeneousSetH, genAffineSetH, setHDispatch, Cls.setHIsAffine, HState.new, HState.clearH,
-    HState.withH, ArrV.eye, ArrV.shape, ArrV.size, ArrV.affineBottom, HState.summary, HState.nDimsI, identSummary,
+    HState.withH, ArrV.eye, ArrV.shape, ArrV.size, ArrV.bottomZeros, ArrV.cornerOne, HState.summary, HState.nDimsI, identSummary,
     initIdentity, Cls.guards23, except_bind_ok, except_bind_error, except_map_ok, except_map_error])
+
+/-- the checks of `Affine._set_h_matrix` on a fresh object (`skip_checks=False`), each of them: a square matrix of a
+2-D/3-D transform whose bottom row is zeros AND whose corner entry is one -/
+theorem genAffineSetH_checks (cls : Cls) (r c : Int) (bz co copy : Bool) :
+    genAffineSetH ⟨cls, none⟩ (.mat r c bz co) copy false =
+      if r = c ∧ (r - 1 = 2 ∨ r - 1 = 3) ∧ bz = true ∧ co = true then .ok ⟨cls, some (.mat r c bz co)⟩
+      else .error .valueError := by
+  simp only [genAffineSetH, ArrV.shape, ArrV.bottomZeros, ArrV.cornerOne, HState.withH]
+  by_cases h1 : r = c <;> by_cases h2 : r - 1 = 2 <;> by_cases h3 : r - 1 = 3 <;>
+    cases bz <;> cases co <;> cases copy <;> simp_all
 
 theorem genHomogeneousInitIdentity_eq (n : Nat) :
     (genHomogeneousInitIdentity (n : Int)).map HState.summary = identSummary .homogeneous n := by
